@@ -48,7 +48,7 @@ static void atexit_guard(void){ if(!exiting_ok){ printf("prop exit FAIL the libr
 
 int main(int argc,char **argv){
   FILE *f=fopen(argv[1],"r"); char *line; if(!f)return 2;
-  signal(SIGALRM,on_alarm); atexit(atexit_guard); (void)on_exit_called;
+  signal(SIGALRM,on_alarm); atexit(atexit_guard); (void)on_exit_called; setvbuf(stdout,NULL,_IOLBF,0);
   { struct rlimit rl={ (rlim_t)8<<20,(rlim_t)8<<20 }; (void)rl; }     /* default 8 MiB stack is what the process already has */
   vorbis_info vi; vorbis_comment vc; vorbis_dsp_state vd; vorbis_block vb; int have=0,inited=0; long seqno=0;
   memset(&vd,0,sizeof vd); memset(&vb,0,sizeof vb);
@@ -65,7 +65,12 @@ int main(int argc,char **argv){
     }else if(!strcmp(tok[0],"hdr")){
       long n; unsigned char *b=vc_unhex(tok[2],&n); ogg_packet op; memset(&op,0,sizeof op); op.packet=b; op.bytes=n; op.b_o_s=atoi(tok[1]);
       int rc=vorbis_synthesis_headerin(&vi,&vc,&op);
-      printf("hdr %s\n",hname(rc)); free(b);
+      printf("hdr %s\n",hname(rc));
+      if(rc==0&&n>0&&b[0]==1){ codec_setup_info *ci=vi.codec_setup;
+        printf("ident %d %ld %ld %ld %ld %ld %ld\n",vi.channels,vi.rate,vi.bitrate_upper,vi.bitrate_nominal,vi.bitrate_lower,ci->blocksizes[0],ci->blocksizes[1]); }
+      if(rc==0&&n>0&&b[0]==5){ codec_setup_info *ci=vi.codec_setup;
+        printf("setup %d %d %d %d %d\n",ci->books,ci->floors,ci->residues,ci->maps,ci->modes); }
+      free(b);
     }else if(!strcmp(tok[0],"init")){
       if(inited){ printf("init skipped\n"); }
       else{
@@ -84,7 +89,7 @@ int main(int argc,char **argv){
       g_log=0;
       codec_setup_info *ci=vi.codec_setup;
       if(rc==0){
-        long left=(long)n*8-oggpack_bits(&vb.opb); if(vb.opb.ptr==NULL)left=0;
+        long left=(long)n*8-oggpack_bits(&vb.opb); if(vb.opb.ptr==NULL)left=-2;   /* -2: a read ran past the end */
         printf("%s OK %d %ld %ld %ld %ld\n",tok[0],vb.mode,vb.W,vb.lW,vb.nW,trk?-1:left);
         if(spec){ for(int c=0;c<g_nspec;c++){ printf("ch %d ",c); puthexf(g_spec[c],g_specn[c]); putchar('\n'); } }
         int brc=vorbis_synthesis_blockin(&vd,&vb);
